@@ -302,7 +302,7 @@ func init() {
 		Prop:  "C14",
 		Level: "exploration",
 		Variants: []string{"verbose"},
-		Rule: "the complete matrix {109 call sites (4 of them the Verbose entry points, which print only in a build of the library with its tag verbose: their 216 cells are run by a build variant of the workload; one with an attribute named caller; 3 of them printf verbs with %w / several verbs / none; 3 in files whose names hold quotation marks, backslashes or letters outside ASCII; 17 at chosen line numbers 1, 9|10|11, 99|100|101 ... 65535|65536, 10^6 through //line directives; the line-number flag is cleared for every third cell): 30 native verbs/Context verbs/LogAttrs/Logit/Log/printf verbs, 24 package-level functions, 5 Println forms whose first argument is not a string (native and package-level), 6 application-side facades whose type/package names collide with library or std names (applog.(*Logger).Infof/Warnf/Println over the std log bridge, a facade package named slog with a type Entry and a method logContext over the native API; the record is attributed skip minus facade depth frames above the call statement), 5 sites that also log an error carrying its own stack trace (errors.v3), 6 log/slog adapter forms (Logger.Info/WarnContext/Log/LogAttrs, With(..).Info, slog.Info after SetDefault), 4 std log bridge forms (Print/Printf/Println/Output)} x {json, logfmt, color} x {skip 0..4 set by WithSkip or SetSkip, with a wrapper chain of matching depth} x " +
+		Rule: "the complete matrix {113 call sites (4 of them the Verbose entry points, which print only in a build of the library with its tag verbose: their 216 cells are run by a build variant of the workload; one with an attribute named caller; 3 of them printf verbs with %w / several verbs / none; 3 in files whose names hold quotation marks, backslashes or letters outside ASCII; 17 at chosen line numbers 1, 9|10|11, 99|100|101 ... 65535|65536, 10^6 through //line directives; the line-number flag is cleared for every third cell): 30 native verbs/Context verbs/LogAttrs/Logit/Log/printf verbs, 24 package-level functions, 5 Println forms whose first argument is not a string (native and package-level), 6 application-side facades whose type/package names collide with library or std names (applog.(*Logger).Infof/Warnf/Println over the std log bridge, a facade package named slog with a type Entry and a method logContext over the native API; the record is attributed skip minus facade depth frames above the call statement), 5 sites that also log an error carrying its own stack trace (errors.v3), 9 log/slog adapter forms (Logger.Info/WarnContext/Log/LogAttrs, With(..).Info, slog.Info after SetDefault, Log / LogAttrs at the library's own log/slog levels LevelFatal and LevelPanic and at an application level above Error), one helper kept in another source file and inlined into the calling statement (its record belongs to the helper's file, with skip 1 to the caller's), 4 std log bridge forms (Print/Printf/Println/Output)} x {json, logfmt, color} x {skip 0..4 set by WithSkip or SetSkip, with a wrapper chain of matching depth} x " +
 			"{root held as Logger interface, root as *Entry, child | default logger for package functions} x {inlinable, noinline wrappers; direct chains and closure chains}. Each call site is a one-line function literal that also records its own logical call stack (runtime.CallersFrames) and is executed TWICE in a row (a second record from the same statement must be attributed like the first); a WithSkip child is used only after a sibling with another skip count was derived from the same parent; " +
 			"the caller decoded from the record (file made absolute, line, function) must equal the frame `skip` logical frames above the call statement. conc: 2-16 goroutines log 300-1500 records each at the same time, each from a function of its own; every record names the function of its own call site. thorough additionally builds the workload with -gcflags=all=-l. non-trivial = confirmed attribution; distinct = by cell Every cell issues its record three times: as is, after WithSkip(n) was evaluated again for the same count, and through a child derived from the logger that carries the skip count (attributed to the statement itself: a skip count is not inherited); every 50th cell first issues records from 320 other call sites. The whole matrix is run a second time in processes whose FIRST log/slog handler record came from a wrapping helper (own runtime.Callers, NewRecord, Handler().Handle); a third of the bridge cells first recover a panic through a second bridge built on a decorating logger.",
 		Assumptions: []string{"runtime.CallersFrames over a 16-slot Callers buffer gives the true logical stack at the call site", "privacy path flags are off so that the reported file can be compared (C18 covers them)"},
@@ -310,15 +310,15 @@ func init() {
 		Exhaustive:  func(string) bool { return true },
 		NoInline: true,
 		Jobs: func(tier string, seed int64) []Job {
-			js := chunk("sites", "prod", 6894, 431, Job{Timeout: 20 * time.Minute})
+			js := chunk("sites", "prod", 7218, 452, Job{Timeout: 20 * time.Minute})
 			// the four Verbose entry points exist only in a build with the library's tag "verbose": their 216 cells
-			js = append(js, Job{Sub: "sites", Mode: "prod", From: 6894, To: 7110, Variant: "verbose", Timeout: 20 * time.Minute})
+			js = append(js, Job{Sub: "sites", Mode: "prod", From: 7218, To: 7434, Variant: "verbose", Timeout: 20 * time.Minute})
 			// processes whose first log/slog handler record comes from a wrapping helper, not from a Logger method
-			js = append(js, chunk("sites", "prod", 6894, 862, Job{Args: []string{"-x", "firstwrap=1"}, Timeout: 20 * time.Minute})...)
+			js = append(js, chunk("sites", "prod", 7218, 903, Job{Args: []string{"-x", "firstwrap=1"}, Timeout: 20 * time.Minute})...)
 			js = append(js, chunk("conc", "prod", pick(tier, 8, 60), pick(tier, 2, 6), Job{Timeout: 20 * time.Minute})...)
 			if tier == "thorough" {
-				js = append(js, chunk("sites", "prod", 6894, 431, Job{NoInl: true, Args: []string{"-x", "build=noinline"}, Timeout: 20 * time.Minute})...)
-				js = append(js, chunk("sites", "test", 6894, 431, Job{Timeout: 20 * time.Minute})...)
+				js = append(js, chunk("sites", "prod", 7218, 452, Job{NoInl: true, Args: []string{"-x", "build=noinline"}, Timeout: 20 * time.Minute})...)
+				js = append(js, chunk("sites", "test", 7218, 452, Job{Timeout: 20 * time.Minute})...)
 			}
 			return js
 		},
